@@ -6,7 +6,7 @@ def run(ctx):
                      "sort returns the same list, so the comparison of sorted outputs is exact"]
     ctx.lean(props=["Props.C20"], drivers=["drv_c20"])
     ctx.harness("./cmd/c20")
-    ctx.diff(area="natsort", driver="drv_c20", n={"quick": 80000, "thorough": 6000000},
+    ctx.diff(area="natsort", driver="drv_c20", n={"quick": 150000, "thorough": 6000000},
              trivial=lambda l, o: False,
              theorem="C20.cmp_antisymm / cmp_trans / cmp_zero_iff / cmp_key / sortAsc_sorted (model = spec); "
                      "impl != model on this input")
